@@ -120,6 +120,16 @@ struct Op {
 };
 const char *const kAliased = "assign-aliased";
 
+// First polymorphic base of the derived test types: the Node subobject of a Derived sits behind it, so every
+// Derived* -> Node* conversion (converting constructors / assignments of the smart pointers, comparisons between a
+// base and a derived handle, deletion through the base handle) has to ADJUST the pointer.  A conversion that merely
+// reinterprets the bits yields a pointer to the Pad subobject: wrong id / dynamic type / vtable.
+struct Pad {
+  long pad = 0x5a5a5a5a;
+  virtual ~Pad() {}
+  virtual long padding() const { return pad; }
+};
+
 // ==================================================================================================
 // shared_ptr world
 // ==================================================================================================
@@ -131,7 +141,7 @@ template <class Fam> struct SNode {
   virtual int kind() const { return 0; }
   SNode(const SNode &) = delete;
 };
-template <class Fam> struct SDerived : SNode<Fam> {
+template <class Fam> struct SDerived : Pad, SNode<Fam> {
   int extra = 77;
   explicit SDerived(int i) : SNode<Fam>(i) {}
   int kind() const override { return 1; }
@@ -141,7 +151,9 @@ enum SCode {
   S_CTOR_DEFAULT, S_CTOR_RAW, S_CTOR_RAW_DERIVED, S_ASSIGN_NULL, S_CTOR_COPY, S_CTOR_MOVE, S_ASSIGN_COPY, S_ASSIGN_MOVE, S_SWAP,
   S_LINK_COPY, S_LINK_NULL, S_ASSIGN_COPY_OWN_NEXT, S_ASSIGN_MOVE_OWN_NEXT, S_ASSIGN_COPY_OTHER_NEXT, S_CTOR_COPY_OWN_NEXT, S_POP_NEXT,
   S_X_FRESH, S_X_RESET, S_CTOR_FROM_STD_COPY, S_CTOR_FROM_STD_MOVE, S_ASSIGN_FROM_STD, S_CTOR_FROM_UNIQUE, S_CTOR_FROM_STD_UNIQUE,
-  S_CTOR_FROM_NULL_UNIQUE, S_D_RAW, S_D_NULL, S_CTOR_CONV_MOVE, S_ASSIGN_CONV_MOVE
+  S_CTOR_FROM_NULL_UNIQUE, S_D_RAW, S_D_NULL, S_CTOR_CONV_MOVE, S_ASSIGN_CONV_MOVE,
+  // (appended: the indices of the operations above are part of archived replay files)
+  S_C_CTOR_CONV_MOVE, S_C_ASSIGN_CONV_MOVE, S_C_CTOR_CONV_MOVE_DERIVED, S_C_NULL
 };
 
 const std::vector<Op> &shared_ops() {
@@ -185,6 +197,11 @@ const std::vector<Op> &shared_ops() {
   ops.push_back({S_D_NULL, -1, -1, "derived-assign-nullptr"});
   each_i(S_CTOR_CONV_MOVE, "ctor-converting-move");
   each_i(S_ASSIGN_CONV_MOVE, "assign-converting-move");
+  // shared_ptr<T> -> shared_ptr<const T> (and Derived -> const Base): the only cv conversion nostd offers is the converting move
+  each_i(S_C_CTOR_CONV_MOVE, "const-ctor-converting-move");
+  each_i(S_C_ASSIGN_CONV_MOVE, "const-assign-converting-move");
+  ops.push_back({S_C_CTOR_CONV_MOVE_DERIVED, -1, -1, "const-ctor-converting-move-derived"});
+  ops.push_back({S_C_NULL, -1, -1, "const-assign-nullptr"});
   for (auto &o : ops) {
     bool aliased = ((o.code == S_ASSIGN_COPY || o.code == S_ASSIGN_MOVE) && o.i == o.j) || o.code == S_ASSIGN_COPY_OWN_NEXT || o.code == S_ASSIGN_MOVE_OWN_NEXT || o.code == S_POP_NEXT;
     o.cls = aliased ? kAliased : o.name;
@@ -197,8 +214,10 @@ template <class Fam> struct SWorld {
   using D = SDerived<Fam>;
   using SP = typename Fam::template sp<N>;
   using SD = typename Fam::template sp<D>;
+  using SC = typename Fam::template sp<const N>;
   Slot<SP> b[2];
   Slot<SD> d;
+  Slot<SC> c;            // handle to const: filled by converting moves only
   std::shared_ptr<N> x;  // a std::shared_ptr that shares ownership with the handles under test
 
   bool enabled(const Op &o) const {
@@ -242,6 +261,10 @@ template <class Fam> struct SWorld {
       case S_D_NULL: *d = nullptr; break;
       case S_CTOR_CONV_MOVE: b[o.i].rebuild(std::move(*d)); break;
       case S_ASSIGN_CONV_MOVE: t = std::move(*d); break;
+      case S_C_CTOR_CONV_MOVE: c.rebuild(std::move(*b[o.i])); break;   // nostd: shared_ptr<const N>(shared_ptr<N>&&)
+      case S_C_ASSIGN_CONV_MOVE: *c = std::move(*b[o.i]); break;       // nostd: converting constructor, then move assignment
+      case S_C_CTOR_CONV_MOVE_DERIVED: c.rebuild(std::move(*d)); break;  // Derived -> const Node: pointer adjustment and cv
+      case S_C_NULL: *c = nullptr; break;
     }
   }
 
@@ -255,6 +278,10 @@ template <class Fam> struct SWorld {
     o += (nullptr != h) ? "n" : "e";
     if (!h) return o;
     o += vf::sfmt("#%d/%d/%d/k%d", h->id, (*h).id, h.get()->id, h->kind());
+    if (h->kind() == 1) {  // the complete Derived object seen from this handle: members behind and in front of the Node subobject
+      const D *whole = static_cast<const D *>(h.get());
+      o += vf::sfmt("[x%d,p%lx]", whole->extra, (unsigned long)whole->padding());
+    }
     const N *n = h.get();
     for (int hop = 0; hop < 6 && n->next; ++hop) {
       n = n->next.get();
@@ -263,9 +290,10 @@ template <class Fam> struct SWorld {
     return o;
   }
   std::string observe() {
-    std::string o = "b0=" + chain(*b[0]) + " b1=" + chain(*b[1]) + " d=" + chain(*d);
+    std::string o = "b0=" + chain(*b[0]) + " b1=" + chain(*b[1]) + " d=" + chain(*d) + " c=" + chain(*c);
     o += vf::sfmt(" x=%d", x ? x->id : -1);
     o += vf::sfmt(" cmp=%d%d%d%d%d%d", int(*b[0] == *b[1]), int(*b[0] != *b[1]), int(*b[0] == *d), int(*d != *b[1]), int(*b[0] == *b[0]), int(*d == *d));
+    o += vf::sfmt("%d%d%d%d", int(*c == *b[0]), int(*b[1] != *c), int(*c == *d), int(*c == *c));
     if (*d) o += vf::sfmt(" extra=%d", (*d)->extra);
     return o;
   }
@@ -286,6 +314,7 @@ template <class Fam> struct SWorld {
     visit(b[0]->get(), use_count(*b[0]));
     visit(b[1]->get(), use_count(*b[1]));
     visit(d->get(), use_count(*d));
+    visit(c->get(), use_count(*c));
     visit(x.get(), x.use_count());
     for (size_t k = 0; k < todo.size(); ++k) {
       o += "|";
@@ -293,7 +322,7 @@ template <class Fam> struct SWorld {
     }
     return o;
   }
-  void teardown() { b[0].rebuild(); b[1].rebuild(); d.rebuild(); x.reset(); }
+  void teardown() { b[0].rebuild(); b[1].rebuild(); d.rebuild(); c.rebuild(); x.reset(); }
 };
 
 // ==================================================================================================
@@ -307,7 +336,7 @@ template <class Fam> struct UNode {
   virtual int kind() const { return 0; }
   UNode(const UNode &) = delete;
 };
-template <class Fam> struct UDerived : UNode<Fam> {
+template <class Fam> struct UDerived : Pad, UNode<Fam> {
   int extra = 55;
   explicit UDerived(int i) : UNode<Fam>(i) {}
   int kind() const override { return 1; }
@@ -321,7 +350,9 @@ template <class Fam> struct UElem {  // element of the array form
 enum UCode {
   U_CTOR_DEFAULT, U_CTOR_NULLPTR, U_CTOR_RAW, U_ASSIGN_NULL, U_RESET, U_RESET_FRESH, U_CTOR_MOVE, U_ASSIGN_MOVE, U_SWAP, U_RELEASE, U_CTOR_FROM_RELEASED,
   U_RESET_FROM_RELEASED, U_DELETE_RELEASED, U_LINK_MOVE, U_LINK_NULL, U_ASSIGN_MOVE_OWN_NEXT, U_ASSIGN_MOVE_OTHER_NEXT, U_CTOR_MOVE_OWN_NEXT, U_POP_NEXT,
-  U_X_FRESH, U_X_RESET, U_CTOR_FROM_STD, U_ASSIGN_FROM_STD, U_TO_STD, U_D_RAW, U_D_NULL, U_CTOR_CONV_MOVE, U_ASSIGN_CONV_MOVE, U_ARRAY_FRESH, U_ARRAY_NULL, U_ARRAY_MOVE
+  U_X_FRESH, U_X_RESET, U_CTOR_FROM_STD, U_ASSIGN_FROM_STD, U_TO_STD, U_D_RAW, U_D_NULL, U_CTOR_CONV_MOVE, U_ASSIGN_CONV_MOVE, U_ARRAY_FRESH, U_ARRAY_NULL, U_ARRAY_MOVE,
+  // (appended: the indices of the operations above are part of archived replay files)
+  U_XD_FRESH, U_CTOR_FROM_STD_DERIVED, U_ASSIGN_FROM_STD_DERIVED, U_D_TO_STD_BASE
 };
 
 const std::vector<Op> &unique_ops() {
@@ -368,6 +399,11 @@ const std::vector<Op> &unique_ops() {
   ops.push_back({U_ARRAY_FRESH, -1, -1, "array-reset-raw"});
   ops.push_back({U_ARRAY_NULL, -1, -1, "array-assign-nullptr"});
   ops.push_back({U_ARRAY_MOVE, -1, -1, "array-assign-move"});
+  // conversions between nostd::unique_ptr and std::unique_ptr that cross the Derived -> Node boundary
+  ops.push_back({U_XD_FRESH, -1, -1, "std-derived-handle-fresh"});
+  each_i(U_CTOR_FROM_STD_DERIVED, "ctor-from-std-unique-derived");
+  each_i(U_ASSIGN_FROM_STD_DERIVED, "assign-from-std-unique-derived");
+  ops.push_back({U_D_TO_STD_BASE, -1, -1, "convert-derived-to-std-unique-base"});
   for (auto &o : ops) {
     bool aliased = ((o.code == U_ASSIGN_MOVE || o.code == U_LINK_MOVE) && o.i == o.j) || o.code == U_ASSIGN_MOVE_OWN_NEXT || o.code == U_POP_NEXT;
     o.cls = aliased ? kAliased : o.name;
@@ -386,6 +422,7 @@ template <class Fam> struct UWorld {
   Slot<UD> d;
   Slot<UA> a[2];
   std::unique_ptr<N> x;   // a std::unique_ptr exchanging ownership with the handles under test
+  std::unique_ptr<D> xd;  // a std::unique_ptr<Derived>: source of converting constructions / assignments from std
   N *released = nullptr;  // raw pointer obtained from release(), owned by the harness
 
   bool enabled(const Op &o) const {
@@ -433,6 +470,10 @@ template <class Fam> struct UWorld {
       case U_ARRAY_FRESH: a[0]->reset(new E[2]); break;
       case U_ARRAY_NULL: *a[0] = nullptr; break;
       case U_ARRAY_MOVE: *a[1] = std::move(*a[0]); break;
+      case U_XD_FRESH: xd.reset(new D(fresh)); break;
+      case U_CTOR_FROM_STD_DERIVED: u[o.i].rebuild(std::move(xd)); break;  // nostd: unique_ptr<N>(std::unique_ptr<D>&&)
+      case U_ASSIGN_FROM_STD_DERIVED: t = std::move(xd); break;            // nostd: operator=(std::unique_ptr<D>&&)
+      case U_D_TO_STD_BASE: x = std::unique_ptr<D>(std::move(*d)); break;  // nostd: operator std::unique_ptr<D>() &&, then std's Derived -> Node
     }
   }
 
@@ -445,6 +486,10 @@ template <class Fam> struct UWorld {
     o += (nullptr != h) ? "n" : "e";
     if (!h) return o;
     o += vf::sfmt("#%d/%d/%d/k%d", h->id, (*h).id, h.get()->id, h->kind());
+    if (h->kind() == 1) {  // the complete Derived object seen from this handle: members behind and in front of the Node subobject
+      const D *whole = static_cast<const D *>(h.get());
+      o += vf::sfmt("[x%d,p%lx]", whole->extra, (unsigned long)whole->padding());
+    }
     const N *n = h.get();
     for (int hop = 0; hop < 6 && n->next; ++hop) {
       n = n->next.get();
@@ -454,7 +499,7 @@ template <class Fam> struct UWorld {
   }
   std::string observe() {
     std::string o = "u0=" + chain(*u[0]) + " u1=" + chain(*u[1]) + " d=" + chain(*d);
-    o += vf::sfmt(" x=%d rel=%d", x ? x->id : -1, released ? released->id : -1);
+    o += vf::sfmt(" x=%d/k%d rel=%d xd=%d", x ? x->id : -1, x ? x->kind() : -1, released ? released->id : -1, xd ? xd->id : -1);
     o += vf::sfmt(" cmp=%d%d%d%d%d%d", int(*u[0] == *u[1]), int(*u[0] != *u[1]), int(*u[0] == *d), int(*d != *u[1]), int(*u[0] == *u[0]), int(*d == *d));
     if (*d) o += vf::sfmt(" extra=%d", (*d)->extra);
     for (int k = 0; k < 2; ++k) o += vf::sfmt(" a%d=%d%d", k, int(bool(*a[k])), *a[k] ? int((*a[k]).get()[1].id - (*a[k]).get()[0].id) : 0);
@@ -475,11 +520,11 @@ template <class Fam> struct UWorld {
       }
       o += " ";
     };
-    walk(u[0]->get()); walk(u[1]->get()); walk(d->get()); walk(x.get()); walk(released);
+    walk(u[0]->get()); walk(u[1]->get()); walk(d->get()); walk(x.get()); walk(released); walk(xd.get());
     o += vf::sfmt("a%d%d", int(bool(*a[0])), int(bool(*a[1])));
     return o;
   }
-  void teardown() { u[0].rebuild(); u[1].rebuild(); d.rebuild(); a[0].rebuild(); a[1].rebuild(); x.reset(); delete released; released = nullptr; }
+  void teardown() { u[0].rebuild(); u[1].rebuild(); d.rebuild(); a[0].rebuild(); a[1].rebuild(); x.reset(); xd.reset(); delete released; released = nullptr; }
 };
 
 // silence stderr around an operation whose failure mode is an AddressSanitizer report (the report is
@@ -598,7 +643,19 @@ template <class WStd, class WNo> void drive(vf::Ctx &c, const char *kind, const 
     c.sample(std::string(kind) + ":" + hist + " => " + final_canon);
 }
 
+// Derived* -> Node* really moves the pointer (computed on a dummy address; nothing is dereferenced)
+template <class D, class N> bool conversion_adjusts() {
+  D *whole = reinterpret_cast<D *>(uintptr_t(0x10000));
+  N *base = whole;
+  return reinterpret_cast<uintptr_t>(base) != reinterpret_cast<uintptr_t>(whole);
+}
+
 void setup(vf::Options &o) {
+  if (!conversion_adjusts<SDerived<NoFam>, SNode<NoFam>>() || !conversion_adjusts<UDerived<NoFam>, UNode<NoFam>>() || !conversion_adjusts<SDerived<StdFam>, SNode<StdFam>>() ||
+      !conversion_adjusts<UDerived<StdFam>, UNode<StdFam>>()) {
+    fprintf(stderr, "c20_ptr: the Node subobject of the Derived test types is at offset 0; the converting operations would not adjust the pointer\n");
+    exit(2);
+  }
   o.fork_per_exec = true;  // the pointee destructor ends an execution with exit_fail()
   o.split_depth = 2;
   o.table_bits = o.thorough ? 24 : 22;
